@@ -144,7 +144,36 @@ def _complete_handler_table():
     ]
 
 
-TABLES = [_Table('T:function-table-default', 'C14', _function_table_default), _Table('T:complete-handlers', 'C14', _complete_handler_table)]
+def _unknown_spellings_table():
+    """Ground facts through the real Function token: a name that is not registered - a registered name with one extra
+    leading character from the prefix alphabet, with or without the _xlfn. prefix, in either case - compiles to not_implemented."""
+    import formulas
+    from formulas.functions import not_implemented
+    from formulas.tokens.function import Function
+    F = formulas.get_functions()
+    names = sorted(k for k in F if not k.startswith('_') and k.replace('.', '').isalnum())
+    bad, n = [], 0
+    for name in names:
+        for extra in 'XLFN':
+            for spelled in ('_xlfn.%s%s' % (extra, name), '_XLFN.%s%s' % (extra, name.lower()), '%s%s' % (extra, name)):
+                key = spelled.upper()
+                if key in F or key.replace('_XLFN.', '') in F and False:
+                    continue
+                n += 1
+                try:
+                    f = Function(spelled + '(').compile()
+                except Exception as ex:
+                    bad.append('%s: %s' % (spelled, type(ex).__name__))
+                    continue
+                if f is not not_implemented:
+                    bad.append(spelled)
+    return [dict(name='T:unknown-function-spellings-compile-to-not_implemented', kind='P', ok=not bad,
+                 detail='%d of %d unregistered spellings are dispatched to an implemented function: %s' % (len(bad), n, bad[:6]),
+                 witness='=%s(...)' % (bad[0] if bad else '_xlfn.XMATCH'))]
+
+
+TABLES = [_Table('T:function-table-default', 'C14', _function_table_default), _Table('T:complete-handlers', 'C14', _complete_handler_table),
+          _Table('T:unknown-function-spellings', 'C14', _unknown_spellings_table)]
 
 # ------------------------------------------------------------------------------------ bounded: single formulas
 from pyvc.bounded import Stage
@@ -176,6 +205,7 @@ def _check_formula(case):
 def _formula_cases(tier, rng):
     return [
         ('=NOSUCHFUNCTION(1)', {}, NAME), ('=_xlfn.NOSUCHFUNCTION(1,2)', {}, NAME), ('=1+NOSUCHFUNCTION()', {}, NAME),
+        ('=_xlfn.XMATCH(2,{1,2,3})', {}, NAME), ('=_xlfn.FSUM(1,2)', {}, NAME), ('=_xlfn.xxor(TRUE,TRUE)', {}, NAME), ('=INDEX({1,2,3},_xlfn.XMATCH(2,{1,2,3}))', {}, NAME),
         # not demanded: interception *inside* the same formula (=IFERROR(NOSUCH(1),5)): the statement says a formula
         # using an unimplemented function evaluates to #NAME?, which is what the whole-formula wrapper does
         ('=IFERROR(NOSUCHFUNCTION(1),5)', {}, NAME), ('=SUM(1,2)+NOSUCH(3)', {}, NAME),
@@ -291,7 +321,7 @@ BOUNDED = [
           'function, _xlfn. function, undefined name) injected into a workbook with a linked workbook: loads and calculates, healthy cells keep their values, '
           'faulty cells hold an error that IFERROR / ISERROR intercept and arithmetic propagates', parallel=True, weight=lambda c: 1),
     Stage('B1:single-formulas-with-unresolved-items', 'C14', _formula_cases, _check_formula,
-          '15 formulas with unknown functions (incl. _xlfn.), undefined names and #REF! literals, bare and under IFERROR / ISERROR / IF',
+          '19 formulas with unknown functions (incl. _xlfn.), undefined names and #REF! literals, bare and under IFERROR / ISERROR / IF',
           parallel=False),
 ]
 
